@@ -170,3 +170,24 @@ func init() {
 		},
 	})
 }
+
+func init() {
+	register(&Prop{
+		ID:     "C18",
+		Run:    RunC18,
+		Replay: ReplayC18,
+		Race:   true,
+		Rule:   "worker built with -race; determinism set = corpus under every entry + 2-statement lists + SplitRawStatements + type seeds + token mutants (same in every shard); per shard: sequential reference digests (tree incl. positions, SQL, Pos/End of every node, walk count, error list), repetition in shuffled order interleaved with unrelated calls, aliasing check of address sets of separately returned trees + mutation of a returned tree followed by a repeat, rounds of 64 goroutines released on a barrier (each with its own order, hot inputs shared) whose digests are compared with the sequential ones, package-table digest before/after; shards are fresh processes and must agree on the digest of the whole set; race reports are counted in GORACE log files; distinct_nontrivial = distinct (entry,input) of the determinism set",
+		Assumptions: []string{"the race detector only sees accesses that execute; schedules are not enumerated", "sharing one Parser/Lexer/File value between goroutines is out of scope"},
+		Floors: func(m *Merged) []string {
+			var f []string
+			if m.Counters["race_canary_fired"] != 1 {
+				f = append(f, "race canary did not fire")
+			}
+			if m.Counters["concurrent_calls"] == 0 || m.Counters["alias_pairs"] == 0 {
+				f = append(f, "concurrent calls and alias pairs must be observed")
+			}
+			return f
+		},
+	})
+}
